@@ -12,7 +12,7 @@ CONSTANTS
   MaxMerges = 1
   MaxSheets = 2
   KindSeq <- KindsAll
-  Rots <- RotStep3
+  Rots = {0, 5}
   Layouts <- LayAll
 CONSTRAINT Emit
 CHECK_DEADLOCK FALSE
